@@ -702,6 +702,20 @@ func (s *Sim) execBlock(rc *runCtx, it workItem) []workItem {
 					st.vals[x] = avSymbol(fmt.Sprintf("len:%d", c))
 				}
 			}
+		case *ssa.Slice:
+			delete(st.vals, x)
+			if s.TrackLens && x.Low == nil && x.High == nil {
+				// a slice literal: the whole of a fresh array
+				if al, ok := x.X.(*ssa.Alloc); ok {
+					if arr, ok := al.Type().Underlying().(*types.Pointer).Elem().Underlying().(*types.Array); ok {
+						c := arr.Len()
+						if c > 2 {
+							c = 2
+						}
+						st.vals[x] = avSymbol(fmt.Sprintf("len:%d", c))
+					}
+				}
+			}
 		case *ssa.Field:
 			if a, ok := s.FieldVals[fieldOfVal(x)]; ok && a.K != avTop {
 				st.vals[x] = a
